@@ -15,7 +15,7 @@ from .decl import Decl
 
 VERIF = '/verif'
 REPO = os.environ.get('VERIF_REPO', '/repo')
-WORK = os.path.join(VERIF, 'work')
+WORK = os.environ.get('VERIF_WORK', os.path.join(VERIF, 'work'))
 PRELUDE = open(os.path.join(VERIF, 'vf', 'verus_prelude.rs')).read()
 
 ENV = dict(os.environ)
